@@ -319,13 +319,6 @@ MUTANTS = [
      "        xi = self.oversampling[0] * (np.asarray(x, dtype=float) - x_0)\n"
      "        yi = self.oversampling[1] * (np.asarray(y, dtype=float) - y_0)\n"
      "        xi += self._origin[0]"),
-    ('C13', 'image_fill_bound_off_by_one', 'psf/image_models.py',
-     "            invalid = (xi < 0) | (xi > nx - 1) | (yi < 0) | (yi > ny - 1)\n"
-     "            evaluated_model[invalid] = self.fill_value\n"
-     "        return evaluated_model\n\n\n@deprecated",
-     "            invalid = (xi < 0) | (xi > nx) | (yi < 0) | (yi > ny)\n"
-     "            evaluated_model[invalid] = self.fill_value\n"
-     "        return evaluated_model\n\n\n@deprecated"),
     ('C13', 'image_interpolator_cached_with_flux', 'psf/image_models.py',
      "        evaluated_model = flux * self.interpolator(xi, yi, grid=False)\n\n"
      "        if self.fill_value is not None:\n"
@@ -338,16 +331,83 @@ MUTANTS = [
      "        evaluated_model = self.__dict__['_flux0'] * self.interpolator(xi, yi, grid=False)\n\n"
      "        if self.fill_value is not None:\n"
      "            ny, nx = self.data.shape\n"),
+    ('C10', 'centroid_com_no_copy', 'centroids/core.py',
+     "    # preserve input data - which should be a small cutout image\n"
+     "    data = data.copy()\n",
+     "    data = np.asanyarray(data)\n"),
+    ('C10', 'bkg2d_core_no_copy', 'background/background_2d.py',
+     "        core = reshape_as_blocks(self._data[:y1, :x1].copy(), self.box_size)",
+     "        core = reshape_as_blocks(self._data[:y1, :x1], self.box_size)"),
+    ('C10', 'bkg2d_extra_row_no_copy', 'background/background_2d.py',
+     "                row_data = self._data[y1:, :x1].copy()",
+     "                row_data = self._data[y1:, :x1]"),
+    ('C10', 'aperstats_cutout_no_copy', 'aperture/stats.py',
+     "                cutout = (self._data[slices[0]].astype(float, copy=True)\n"
+     "                          - local_bkg)",
+     "                cutout = self._data[slices[0]].astype(float, copy=False)\n"
+     "                cutout -= local_bkg"),
+    ('C10', 'catalog_moment_cutout_no_copy', 'segmentation/catalog.py',
+     "            cutout = convdata_cutout.copy()\n",
+     "            cutout = convdata_cutout\n"),
+    ('C10', 'total_error_no_copy', 'utils/errors.py',
+     "    source_variance = data.copy()\n",
+     "    source_variance = data\n"),
+    ('C10', 'starfinder_cutouts_are_views', 'detection/starfinder.py',
+     "            cdata = self.data[slc].copy()  # do not modify the input data\n",
+     "            cdata = self.data[slc]\n"),
+    ('C10', 'profile_mask_written_in_place', 'profiles/core.py',
+     "            mask = mask | badmask  # all masked pixels (input mask unchanged)\n",
+     "            mask |= badmask\n"),
+    ('C10', 'psfphot_init_params_no_copy', 'psf/photometry.py',
+     "        init_params = self._rename_init_columns(init_params.copy(),",
+     "        init_params = self._rename_init_columns(init_params,"),
+    ('C10', 'centroid_com_temporary_modify_restore', 'centroids/core.py',
+     "    # preserve input data - which should be a small cutout image\n"
+     "    data = data.copy()\n",
+     "    if isinstance(data, np.ndarray) and data.flags.writeable \\\n"
+     "            and type(data) is np.ndarray and data.dtype.kind == 'f':\n"
+     "        _saved = data.copy()\n"
+     "        _res = _centroid_com_inplace(data, mask)\n"
+     "        data[...] = _saved\n"
+     "        return _res\n"
+     "    data = data.copy()\n"),
 ]
 
 
-def apply_mutant(root, relfile, old, new):
+APPEND = {
+    'centroid_com_temporary_modify_restore': '''
+
+
+def _centroid_com_inplace(data, mask):
+    # mutant helper: cleans the caller's array in place (restored by caller)
+    if mask is not None and mask is not np.ma.nomask:
+        mask = np.asarray(mask, dtype=bool)
+        if data.shape != mask.shape:
+            raise ValueError('data and mask must have the same shape.')
+        data[mask] = 0.0
+    badmask = ~np.isfinite(data)
+    if np.any(badmask):
+        data[badmask] = 0.0
+    total = np.sum(data)
+    if total == 0:
+        return np.array((np.nan, np.nan))
+    indices = np.ogrid[tuple(slice(0, i) for i in data.shape)]
+    return np.array([np.sum(indices[axis] * data) / total
+                     for axis in range(data.ndim)])[::-1]
+''',
+}
+
+
+def apply_mutant(root, relfile, old, new, name=None):
     path = os.path.join(root, relfile)
     src = open(path).read()
     if src.count(old) != 1:
         raise RuntimeError(f'mutant anchor occurs {src.count(old)} times in '
                            f'{relfile}')
-    open(path, 'w').write(src.replace(old, new))
+    src = src.replace(old, new)
+    if name in APPEND:
+        src += APPEND[name]
+    open(path, 'w').write(src)
 
 
 def run_on_copy(pid, root, budget, extra_args=()):
@@ -375,7 +435,7 @@ def mutants(pids=None, budget=25):
                                                           'tests'))
             try:
                 apply_mutant(os.path.join(root, 'photutils'), relfile, old,
-                             new)
+                             new, name)
             except RuntimeError as e:
                 print(f'mutant {pid}/{name}: BROKEN-ANCHOR {e}')
                 fails += 1
